@@ -1538,3 +1538,16 @@ def _count_ones(ctx, args, ck):
     if isinstance(a.v, int):
         return Int(bin(a.v & ((1 << a.bits) - 1)).count('1'), 'u32')
     raise Unsupported('symbolic count_ones')
+
+
+@_fp_unary('clamp')
+def _fclamp(ctx, args, ck):
+    x, lo, hi = args
+    bad = ctx.m.bnot(ctx.m.fp_binop('Le', lo, hi))
+    if ctx.branch(bad):
+        raise RustPanic('min > max, or either was NaN', 'assert')
+    if ctx.branch(ctx.m.fp_binop('Lt', x, lo)):
+        return lo
+    if ctx.branch(ctx.m.fp_binop('Gt', x, hi)):
+        return hi
+    return x
